@@ -808,3 +808,8 @@ impl<'a, A: Agent + 'static> AgentRouteTask<'a, A> {
         }
     }
 }
+
+#[cfg(swimos_verif)]
+pub mod verif_hooks {
+    pub use super::task::verif_hooks::*;
+}
